@@ -35,7 +35,10 @@ impl Ctx {
             json_str(key)
         );
         let _ = std::fs::create_dir_all(&self.replay_dir);
-        let _ = std::fs::write(&file, body);
+        if self.rep.violations.len() < 40 {
+            // replay files only for the witnesses that are reported (the rest are counted)
+            let _ = std::fs::write(&file, body);
+        }
         let detail = format!("\"case\":{},\"observed\":{},\"expected\":{}", json_str(key), json_str(observed), json_str(expected));
         self.rep.violation(&sig, what, &file, &detail);
     }
